@@ -51,3 +51,57 @@ func tinyRun(sys *r1csmc.Sys[uint64, r1csmc.Small], vals map[string]uint64, out 
 	sort.Slice(res, func(i, j int) bool { return res[i] < res[j] })
 	return res, nil
 }
+
+// tinyRunVec is tinyRun for several observed wires: returns the sorted set of
+// observed vectors (as strings) over all accepting states.
+func tinyRunVec(sys *r1csmc.Sys[uint64, r1csmc.Small], vals map[string]uint64, outs []string, st *tinyStats) ([]string, error) {
+	init := make([]uint64, sys.NWires)
+	set := make([]bool, sys.NWires)
+	for n, v := range vals {
+		w, ok := sys.Names[n]
+		if !ok {
+			return nil, fmt.Errorf("no input wire named %q", n)
+		}
+		init[w] = v % r1csmc.TinyP
+		set[w] = true
+	}
+	ow := make([]int, len(outs))
+	for i, n := range outs {
+		w, ok := sys.Names[n]
+		if !ok {
+			return nil, fmt.Errorf("no input wire named %q", n)
+		}
+		ow[i] = w
+	}
+	seen := map[string]bool{}
+	x := &r1csmc.Search[uint64, r1csmc.Small]{S: sys, MaxNodes: 50_000_000}
+	x.Run(init, set, func(w []uint64) bool {
+		b := make([]byte, len(ow))
+		for i, k := range ow {
+			b[i] = byte('0' + w[k])
+			if w[k] > 9 {
+				b[i] = '?'
+			}
+		}
+		seen[string(b)] = true
+		return true
+	})
+	if st != nil {
+		st.Nodes += x.Nodes
+		st.Edges += x.Edges
+		st.Branches += x.Branches
+		st.Survived += x.Survived
+	}
+	if x.Err != nil {
+		return nil, x.Err
+	}
+	if x.Capped {
+		return nil, fmt.Errorf("search node cap hit")
+	}
+	var res []string
+	for v := range seen {
+		res = append(res, v)
+	}
+	sort.Strings(res)
+	return res, nil
+}
